@@ -15,6 +15,7 @@ const (
 
 type node struct {
 	key     []byte
+	name    string // key as given, before encoding
 	members []*node
 	buf     []byte
 	size    int
@@ -25,6 +26,7 @@ type node struct {
 
 type table struct {
 	key     any // string or int
+	name    string
 	size    int
 	columns []*table
 }
@@ -109,7 +111,7 @@ func (n *node) updateMapTable(t *table, lazy bool) {
 			}
 		}
 		if col == nil {
-			col = &table{key: k}
+			col = &table{key: k, name: m.name}
 			t.columns = append(t.columns, col)
 		}
 		switch m.kind {
@@ -123,10 +125,10 @@ func (n *node) updateMapTable(t *table, lazy bool) {
 			m.updateMapTable(col, lazy)
 		}
 	}
+	// Same order as the members of a map that is not aligned, by key and
+	// not by the encoded key.
 	sort.Slice(t.columns, func(i, j int) bool {
-		ki, _ := t.columns[i].key.(string)
-		kj, _ := t.columns[j].key.(string)
-		return ki < kj
+		return t.columns[i].name < t.columns[j].name
 	})
 	t.size = 0
 	for _, col := range t.columns {
